@@ -1113,7 +1113,7 @@ class Exec:
         head = None
         if isinstance(clo, Sym):
             h = clo.get_ov('head')
-            head = h.text if isinstance(h, Const) else clo.ty
+            head = h.text if isinstance(h, Const) else (clo.ty if clo.ty.lstrip().startswith('{') else None)
         elif isinstance(clo, Const):
             m = re.search(r'(\{closure@[^}]*\})', clo.text)
             head = m.group(1) if m else None
